@@ -285,6 +285,35 @@ def gen_C04(rng, tier):
     pc['lost_worker_timeout'] = rng.choice([1.0, 2.0, 5.0, 10.0])
     pc['maxtasksperchild'] = rng.choice([None, None, None, 2, 4])
     ops = case['users'][0]
+    if rng.random() < 0.12:
+        # a worker publishes the result of a part, dies in its next job and is reaped before the parent has
+        # consumed that result (the result handler is inside a slow callback of some other job): nothing of
+        # the multi-part job was lost, and one of its parts runs on past the grace period
+        # skeleton for P workers: part 0 (long) -> w1, part 1 (0.3 s) -> w2, a short job with a slow callback
+        # -> w3, fillers for the rest and for w3 when it is free again, then the job that kills the next free
+        # worker, which is w2 just after it wrote the result of part 1 while the result handler sits in the callback
+        P = rng.choice([3, 4])
+        pc['processes'] = P
+        pc['threads'] = True
+        pc['maxtasksperchild'] = None
+        # (the callback returns well within the grace period: a result handler that is kept away from the pipe
+        # for longer than that cannot tell a published result from a lost one, which is what the period is for)
+        pc['lost_worker_timeout'] = rng.choice([2.0, 3.0])
+        case['cb_delay'] = rng.choice([0.4, 1.2])
+        st0 = {'i': 0}
+
+        def mk0():
+            i = st0['i']
+            st0['i'] += 1
+            return [['sleep', rng.choice([11.0, 13.5]) if i == 0 else 0.3], ['ret', rng.randint(0, 999)]]
+        add_map(rng, c, ops, kind=rng.choice(['map', 'imap', 'imap_unordered']), n=2, mkitem=mk0, chunks=1)
+        ops.append(['apply', c.uid(), [['sleep', rng.choice([0.05, 0.1])], ['ret', rng.randint(0, 999)]], {}])
+        for _ in range(P - 2):
+            ops.append(['apply', c.uid(), [['sleep', rng.choice([0.6, 1.0])], ['ret', rng.randint(0, 999)]], {}])
+        add_applies(rng, c, ops, 1, mk=lambda: prog_die(rng))
+        if rng.random() < 0.5:
+            add_applies(rng, c, ops, rng.randint(1, 2))
+        return case
     ndie = 0
     for _ in range(rng.randint(1, 5)):
         r = rng.random()
